@@ -23,12 +23,15 @@ mkdir -p $DST
 [ "$SRC" != "$DST" ] && [ -f $SRC/notes.md ] && cp $SRC/notes.md $DST/
 RES=""
 for c in $CHECKS; do
+  cp /verif/evidence/$c.json /tmp/seed/evidence-$c.$$.json 2>/dev/null
   OUT=$(cd /verif && VERIF_REPO=$S timeout 1500 ./check $c --tier quick 2>&1 | grep -v '^KNOWN' | cut -c1-300)
+  # the evidence file must describe /repo, not the patched copy: put the previous one back
+  [ -f /tmp/seed/evidence-$c.$$.json ] && mv /tmp/seed/evidence-$c.$$.json /verif/evidence/$c.json
   RC=$(echo "$OUT" | grep -c '^VIOLATION')
   echo "check $c on patched tree: $RC VIOLATION lines"; echo "$OUT" | grep '^VIOLATION' | head -3; echo "$OUT" | tail -1
   RES="$RES $c:$RC"
 done
-cd /verif; git checkout -q -- evidence 2>/dev/null
+cd /verif
 /venv/bin/python - "$P" "$X" "$D0" "$D1" "$T" "$RES" <<'PY'
 import json, sys, os
 P, X, d0, d1, t, res = sys.argv[1:7]
